@@ -735,13 +735,12 @@ pub fn main(args: &[String]) {
         for n in r["nontrivial"].as_array().cloned().unwrap_or_default() {
             nontrivial.insert(n.as_str().unwrap_or("").to_string());
         }
-        for s in r["samples"].as_array().cloned().unwrap_or_default() {
-            if samples.len() < 3 {
-                samples.push(s);
-            }
-        }
+        samples.extend(r["samples"].as_array().cloned().unwrap_or_default());
         viols.extend(r["violations"].as_array().cloned().unwrap_or_default());
     }
+    // samples are the lowest-numbered qualifying cases, whatever the worker count
+    samples.sort_by_key(|x| x["case"].as_u64().unwrap_or(u64::MAX));
+    samples.truncate(3);
     viols.sort_by_key(|v| v["index"].as_u64().unwrap_or(0));
     // confirm, isolate the dimension, minimise the program: first two cases per output class
     let scratch = simcore::lsp::scratch_root("c12-parent");
